@@ -29,12 +29,13 @@ def keysymOf (k : List Char) : Option Nat :=
 
 /-- `_decodeKey(key)`; `upper` is the value of `key.isupper()`. `none` is TypeError. -/
 def decodeKey (forceCaps upper : Bool) (key : List Char) : Option (List Nat) := do
-  let key ←
-    if forceCaps && (upper || isInfixOf key Tables.SPECIAL_KEYS_US.toList) then
-      match key with
-      | [c] => some ("shift-".toList ++ [c])      -- "shift-%c" % key
-      | _ => none                                   -- %c requires a single character
-    else some key
+  let key :=
+    match key with
+    | [c] =>                                        -- `force_caps and len(key) == 1`
+      if forceCaps && (upper || isInfixOf [c] Tables.SPECIAL_KEYS_US.toList) then
+        "shift-".toList ++ [c]                      -- "shift-%c" % key
+      else key
+    | _ => key
   let keys := if key.length = 1 then [key] else splitOnC '-' key
   keys.mapM keysymOf
 
